@@ -261,12 +261,18 @@ def run_clause(name, tier, seed, budget_s):
     nontrivial = set()
     fails, errors, samples = [], [], []
     exhausted = True
+    t_first = None
     for case in cl.gen(ctx):
-        if time.time() - t0 > budget_s:
+        # the budget starts after the first case (which pays one-off costs such as compiling the C kernels);
+        # a hard cap of 5x the budget bounds the whole clause
+        now = time.time()
+        if (t_first is not None and now - t_first > budget_s) or now - t0 > 5 * budget_s:
             exhausted = False
             break
         r = repr(case)
         status, payload = run_case(cl, case)
+        if t_first is None:
+            t_first = time.time()
         n += 1
         if status == "skip":
             nskip += 1
